@@ -3,7 +3,8 @@
    The orders pre / post / levels_from (Spec/TraverseSpec.v) are plain structural recursion over the stored tree;
    dfs / bfs / gather (Model/Traverse.v) are the stack / deque machines of node.py. prune and filt are arbitrary
    functions; wf_node = the node conforms to its class declaration. *)
-From Oak Require Import Spec.TraverseSpec Proofs.TraverseProofs.
+From Oak Require Import Spec.TraverseSpec Proofs.TraverseProofs Proofs.TraversePerm.
+From Coq Require Import Permutation.
 
 Theorem C05_dfs_pre : forall ct prune filt n, wf_node ct n = true ->
   dfs ct prune filt (size n) false n = Some (pre prune filt n).
@@ -49,6 +50,21 @@ Theorem C05_gather : forall ct classes exact extra prune n, wf_node ct n = true 
   gather ct (size n) classes exact extra prune n =
   Some (map ti_node (pre prune (fun ti => class_filter ct classes exact ti && extra ti) n)).
 Proof. exact gather_spec. Qed.
+(* the three orders enumerate the same positions the same number of times, for ALL prune / filter functions:
+   post-order and level order are permutations of pre-order ("each position exactly once" transfers between them) *)
+Theorem C05_post_perm_pre : forall prune filt n, Permutation (post prune filt n) (pre prune filt n).
+Proof. exact post_perm_pre. Qed.
+Theorem C05_bfs_perm_pre : forall prune filt n,
+  Permutation (levels_from prune filt (size n) (direct_infos n)) (pre prune filt n).
+Proof. exact bfs_perm_pre. Qed.
+(* level order from any frontier whose subtrees hold at most d nodes: the pre-orders below it, permuted; and further
+   levels add nothing (the fuel given to bfs is not visible in its result) *)
+Theorem C05_levels_perm_pre : forall prune filt d l, work l <= d ->
+  Permutation (levels_from prune filt d l) (flat_map (pre_info prune filt) l).
+Proof. exact levels_perm_pre. Qed.
+Theorem C05_levels_stable : forall prune filt d l, work l <= d ->
+  levels_from prune filt (S d) l = levels_from prune filt d l.
+Proof. exact levels_from_stable. Qed.
 (* what the machines read through the class table is what the node stores *)
 Theorem C05_infos_direct : forall ct n, wf_node ct n = true -> infos ct n = direct_infos n.
 Proof. exact infos_direct. Qed.
